@@ -184,8 +184,11 @@ func sameBytes() (renders int) {
 		old := time.Date(2000, 1, 2, 0, 0, 0, 0, time.UTC)
 		os.Chtimes(filepath.Join(devRoot, e.Name()), old, old)
 	}
-	if len(ents) != len(files) {
-		vlib.Fatal("%d text files for %d templ files", len(ents), len(files))
+	// a template without a single literal needs no text file: the count is recorded, only "none at all" is a
+	// machinery error (the development-mode renders below would then compare nothing)
+	run.Cov["development_text_files_written"] = fmt.Sprintf("%d for %d templ files", len(ents), len(files))
+	if len(ents) == 0 {
+		vlib.Fatal("no text file was written for %d templ files", len(files))
 	}
 	var jobs []rt.Job
 	for _, n := range names {
@@ -226,7 +229,9 @@ func sameBytes() (renders int) {
 type params struct{ elem, attr, text, place, order, ws, xs int }
 
 var (
-	elems = []string{"div", "a", "span", "form"}
+	// "" = no element at all: the body holds only the text and the expressions (with an empty text and an
+	// expression or a call there is not a single literal in the generated code)
+	elems = []string{"div", "a", "", "span", "form"}
 	attrs = []string{"title", "class", "style", "href", "onclick", "", "data-x", "action", "hx-on:click"}
 	texts = []string{"hello", "bye", ""}
 	// textcall and gocall hold the same expression text, once rendered and once as a raw Go statement: an edit
@@ -238,6 +243,9 @@ var (
 
 func (p params) src() string {
 	el := elems[p.elem]
+	if el == "" {
+		return p.srcBare()
+	}
 	var open strings.Builder
 	open.WriteString("<" + el)
 	if a := attrs[p.attr]; a != "" {
@@ -282,6 +290,31 @@ func (p params) src() string {
 	return "package main\n\ntempl T(x string, y string) {\n\t" + elem + "\n}\n"
 }
 
+// srcBare: the template without the element (and so without the first attribute).
+func (p params) srcBare() string {
+	var kids []string
+	if t := texts[p.text]; t != "" {
+		kids = append(kids, t)
+	}
+	switch places[p.place] {
+	case "text":
+		kids = append(kids, "{ y }")
+	case "textcall":
+		kids = append(kids, "{ rt.Same(y) }")
+	case "gocall":
+		kids = append(kids, "{{ rt.Same(y) }}")
+	case "script":
+		kids = append(kids, "{ rt.Same(x + y) }")
+	case "comment":
+		kids = append(kids, "{ x }{ y }")
+	}
+	if p.order == 1 && len(kids) == 2 {
+		kids[0], kids[1] = kids[1], kids[0]
+	}
+	sep := "\n\t"
+	return "package main\n\ntempl T(x string, y string) {\n\t" + strings.Join(kids, sep) + "\n}\n"
+}
+
 func (p params) String() string {
 	return fmt.Sprintf("<%s %s={%s}> text=%q y-in-%s order=%d ws=%d", elems[p.elem], attrs[p.attr], xSpellings[p.xs], texts[p.text], places[p.place], p.order, p.ws)
 }
@@ -301,7 +334,7 @@ type candidate struct {
 }
 
 func edits(full bool) (states, transitions int, cands []candidate) {
-	doms := []int{2, 6, 2, 7, 2, 1, 2}
+	doms := []int{3, 6, 2, 7, 2, 1, 2}
 	if full {
 		// thorough: every element, attribute, text and place; spacing and the bare spelling of x stay at their quick
 		// values (10 368 templates would make the confirmation stage, which compiles every version and runs one
@@ -334,13 +367,19 @@ func edits(full bool) (states, transitions int, cands []candidate) {
 	var all []params
 	for e := 0; e < doms[0]; e++ {
 		for a := 0; a < doms[1]; a++ {
-			for t := 0; t < doms[2]; t++ {
+			for t := 0; t < len(texts); t++ {
+				if t >= doms[2] && elems[e] != "" {
+					continue // quick: the empty text only for templates without an element (no literal at all)
+				}
 				for pl := 0; pl < doms[3]; pl++ {
 					for o := 0; o < doms[4]; o++ {
 						for w := 0; w < doms[5]; w++ {
 							for x := xsFrom; x < len(xSpellings); x++ {
 								if attrs[a] == "" && x != xsFrom {
 									continue // no first expression to spell
+								}
+								if elems[e] == "" && (attrs[a] != "" || w != 0 || places[pl] == "attr2" || places[pl] == "root") {
+									continue // no element: no first attribute
 								}
 								if p := (params{e, a, t, pl, o, w, x}); func() bool { _, ok := gen(p); return ok }() {
 									all = append(all, p)
@@ -370,7 +409,11 @@ func edits(full bool) (states, transitions int, cands []candidate) {
 			if f == 6 {
 				lo = xsFrom
 			}
-			for x := lo; x < lo+doms[f]; x++ {
+			hi := lo + doms[f]
+			if f == 2 {
+				hi = len(texts)
+			}
+			for x := lo; x < hi; x++ {
 				if x != v[f] {
 					q := append([]int{}, v...)
 					q[f] = x
@@ -866,10 +909,14 @@ func confirm(cands []candidate) {
 			textOf := func(p params) string {
 				// the handler sees the version under the file name of the compiled one and writes its text file
 				writeAt(oldPath, srcOf(p, fmt.Sprintf("V%d", k)))
+				os.Remove(txtPath)
 				if _, err := h.HandleEvent(context.Background(), fsnotify.Event{Name: oldPath, Op: fsnotify.Write}); err != nil {
 					vlib.Fatal("confirm handler: %v", err)
 				}
 				b, err := os.ReadFile(txtPath)
+				if os.IsNotExist(err) {
+					return "" // the handler wrote no text file for this version (a version without literals needs none)
+				}
 				if err != nil {
 					vlib.Fatal("text file of %s: %v", oldPath, err)
 				}
